@@ -139,6 +139,10 @@ def walker_view(w, walk, update):
     return out
 
 
+def wire_class_only(view):
+    return [view[0]] + [[(o, c[0], t, cov, ttl, rds) for (o, c, t, cov, ttl, rds) in recs] for recs in view[1:]]
+
+
 def merge_view(view):
     """merge RRsets with the same key inside a section (the parser does; update messages keep one RR per RRset)"""
     out = [sorted(view[0])]
@@ -215,10 +219,11 @@ def check_message(ctx, spy, m, info):
             ctx.count("obs.case_collision_messages")
         want_view = norm(GM.wire_view(m))
         got_view = norm(walker_view(w, walk, update))
-        if got_view != want_view:
+        want_wire = norm(wire_class_only(GM.wire_view(m)))  # the independent walker sees the class on the wire only
+        if got_view != want_wire:
             for i in range(4):
-                if got_view[i] != want_view[i]:
-                    ctx.violation(f"wire-records-differ-from-message:section{i}", f"walker {got_view[i][:3]!r}\nwant {want_view[i][:3]!r}", case)
+                if got_view[i] != want_wire[i]:
+                    ctx.violation(f"wire-records-differ-from-message:section{i}", f"walker {got_view[i][:3]!r}\nwant {want_wire[i][:3]!r}", case)
                     break
         # OPT presence on the wire; EDNS version and extended rcode per RFC 6891 §6.1.3 read off the raw bytes
         ad = walk["records"][2]
